@@ -9,7 +9,9 @@ COMMON = [
 MACHINE = [
     "abstract machine: every effect of executing an instruction flows through the `&mut Interpreter` argument "
     "(effects on mut cells reached through Arc are not modelled; claims are about order/selection, not cell contents)",
-    "Instruction::exec / Instruction::recreate (match_any! dispatch to the per-kind impl) is trusted, not verified",
+    "eval_res / eval_st (rec_res / rec_st) are, by definition, what Instruction::exec (Instruction::recreate) returns; the "
+    "dispatcher bodies are proved (units instruction.exec / instruction.recreate) except their LocalVariable arm, whose "
+    "panic closure (`name not bound`) has no precondition Verus can be given without editing the body (C06's business)",
 ]
 PROPS = {
     "C08": dict(
@@ -73,11 +75,19 @@ PROPS = {
         ]),
     "C19": dict(
         probes=["eq", "eq_array", "eq_random"],
-        explanation="<Variable as PartialEq>::eq, <Array as PartialEq>::eq, equal/not_equal::exec and their fold path proved "
-                    "bit-precisely on the real crate for scalars (complete) and for arrays/tuples up to length 2 (bounded); "
-                    "MatchArm::covers uses the same `==` (V)",
+        explanation="<Variable as PartialEq>::eq and <Array as PartialEq>::eq proved on the verbatim bodies (V) to be the "
+                    "structural equality the property states (struct_eq: by value / IEEE / element-wise at every depth and "
+                    "length / identity; independent of Array.element_type), relative to the std contracts of slice, str, "
+                    "HashMap and Arc equality; the float-float arm and all scalar arms proved bit-precisely on the real "
+                    "crate (K, complete), arrays/tuples up to length 2 re-checked in K (bounded); equal/not_equal::exec and "
+                    "their fold path (K + V); MatchArm::covers uses the same `==` (V)",
         assumptions=COMMON + [
-            "arrays/tuples beyond length 2, strings, structs and function identity: bounded probes only",
+            "std contracts (verus/equality.rs): <[T]>::eq is same-length element-wise T::eq; str::eq compares the scalar "
+            "values; HashMap::eq is same keys with equal values; Arc<T>::eq delegates to T::eq - NOT true when T: Eq (std then "
+            "short-circuits on pointer identity, observations D6/F4): no such impl exists for Array on the pinned tree, and "
+            "adding one is caught only by the bounded probes",
+            "identity of Arc<Function> / Arc<Mut> is modelled by a ghost id (Arc::ptr_eq compares the ids)",
+            "`&f64 == &f64` has no Verus specification: the float-float arm rests on the K harness c19_float_eq alone",
             "hidden element types in the bounded array harness are drawn from {!, int, any}",
         ]),
 }
